@@ -62,6 +62,7 @@ type ColInstance struct {
 	TmpLeft  int            `json:"tmpleft"`   // .init files lying in the live directories after the operation
 	Died     bool           `json:"died"`      // the process died inside the operation (panic in the compaction / merge goroutine)
 	Panic    string         `json:"panic,omitempty"`
+	Again    string         `json:"again,omitempty"` // after the restart the same operation was run once more: "completed" or "died again: <panic>"
 	Fail     []string       `json:"fail,omitempty"`
 	Hist     string         `json:"hist"`
 	Codes    []string       `json:"codes,omitempty"`
@@ -398,7 +399,7 @@ func (c *colCtx) runOp(op string, emit func(*ColInstance)) {
 		}
 	}
 	inst.SegChg = c.segChg
-	saveBefore(c.dir, &beforeFile{IllForm: inst.IllForm, SegChg: c.segChg, MaxSegs: inst.MaxSegs, Op: op, Hist: strings.Join(append(append([]string{}, c.hist...), op), " "), Mode: c.mode,
+	saveBefore(c.dir, &beforeFile{MinGroup: immutable.LeveLMinGroupFiles[0], Flag: immutable.GetMergeFlag4TsStore(), IllForm: inst.IllForm, SegChg: c.segChg, MaxSegs: inst.MaxSegs, Op: op, Hist: strings.Join(append(append([]string{}, c.hist...), op), " "), Mode: c.mode,
 		MaxRows: c.maxRows, SegLimit: c.segLimit, Dump: flatDump(before), Bad: len(bad0) > 0})
 	var err error
 	switch op {
@@ -622,6 +623,8 @@ type beforeFile struct {
 	MaxSegs  int         `json:"maxsegs"`
 	IllForm  bool        `json:"illformed"`
 	SegChg   string      `json:"segchange"`
+	MinGroup int         `json:"mingroup"`
+	Flag     int32       `json:"flag"`
 	Dump     [][4]string `json:"dump"`
 	Bad      bool        `json:"bad"`
 }
@@ -722,7 +725,62 @@ func spawnColCase(idx int, seed uint64, work string, kind int, emit func(*ColIns
 	if n := countTmp(shard); n > 0 {
 		inst.Fail = append(inst.Fail, fmt.Sprintf("%d half-written (.init) files left after restart", n))
 	}
+	// probe: does the reorganisation die again when it is attempted after the restart (the process death would repeat for ever)?
+	if len(inst.Fail) == 0 && strings.HasPrefix(inst.Panic, "panic") {
+		retry := exec.Command(os.Args[0], "colretry", fmt.Sprint(idx), "0", flag)
+		retry.Env = append(os.Environ(), "VERIF_WORK="+filepath.Dir(work))
+		var ro, re bytes.Buffer
+		retry.Stdout, retry.Stderr = &ro, &re
+		if e := retry.Run(); e == nil && strings.Contains(ro.String(), "retry completed") {
+			inst.Again = "completed"
+		} else {
+			inst.Again = "died again"
+			for _, l := range strings.Split(re.String(), "\n") {
+				if strings.HasPrefix(l, "panic:") {
+					inst.Again += ": " + l
+					break
+				}
+			}
+		}
+	}
 	emit(inst)
+}
+
+// runColRetry re-runs the operation recorded in before.json on the shard directory a dead child left behind
+func runColRetry(idx int, work string) {
+	dir := colCaseDir(work, idx)
+	var bf beforeFile
+	buf, err := os.ReadFile(filepath.Join(dir, "before.json"))
+	if err != nil || json.Unmarshal(buf, &bf) != nil {
+		fmt.Println("retry: no before.json")
+		os.Exit(4)
+	}
+	immutable.SetMaxRowsPerSegment4TsStore(bf.MaxRows)
+	conf := immutable.NewTsStoreConfig()
+	if bf.SegLimit > 0 {
+		conf.SetMaxSegmentLimit(bf.SegLimit)
+	}
+	config.GetStoreConfig().Compact.CompactRecovery = true
+	immutable.LeveLMinGroupFiles[0] = bf.MinGroup
+	immutable.SetMergeFlag4TsStore(bf.Flag)
+	st := immutable.NewTableStore(filepath.Join(dir, "shard", immutable.TsspDirName), &lockPath, &tier, true, conf)
+	st.SetImmTableType(config.TSSTORE)
+	if _, err := st.Open(nil); err != nil {
+		fmt.Println("retry: open failed:", err)
+		os.Exit(5)
+	}
+	st.CompactionEnable()
+	switch bf.Op {
+	case "level0":
+		_ = st.LevelCompact(0, 1)
+	case "full":
+		_ = st.FullCompact(1)
+	case "merge":
+		_ = st.MergeOutOfOrder(1, false, true)
+	}
+	st.Wait()
+	_ = st.Close()
+	fmt.Println("retry completed")
 }
 
 func runColCase(idx int, r *gen.Rand, work string, kind int, emit func(*ColInstance)) {
